@@ -914,4 +914,46 @@ def vignetted_pupil(ctx):
     return res
 
 
-RULES = [vignetted_pupil, intensity_used, c03_trace_entry, c04_marginal, no_stale, psf_norm, dft_sampling, working_fno, def_assign, shapes, geometric]
+def mtf_no_alias(ctx):
+    """'Every MTF curve never exceeds the diffraction-limited curve': the FFT
+    MTF is |DFT(PSF)|, the *circular* autocorrelation of the zero-padded
+    pupil; it is the linear autocorrelation (the OTF) only if the padded grid
+    is at least twice as wide as the pupil.  A necessary structural
+    condition: FFTMTF never works with grid_size < 2 num_rays."""
+    P = ctx.P
+    res = Result('MTF-NO-ALIAS', 'FFTMTF uses a grid of at least twice the '
+                 'pupil width (no wrap-around in the autocorrelation)')
+    f = P.func('FFTMTF.__init__')
+    res.saw(f)
+    ok = False
+    for st in ast.walk(f.node):
+        if isinstance(st, ast.Assign) and \
+                unparse(st.targets[0]) == 'self.grid_size':
+            v = unparse(st.value).replace(' ', '')
+            if v in ('max(grid_size,2*num_rays)', 'max(2*num_rays,grid_size)',
+                     'max(grid_size,num_rays*2)'):
+                ok = True
+        if isinstance(st, ast.If) and any(isinstance(b, ast.Raise)
+                                          for b in st.body):
+            t = unparse(st.test).replace(' ', '')
+            if t in ('grid_size<2*num_rays', '2*num_rays>grid_size'):
+                ok = True
+    uses = [c for c in ast.walk(P.classes['FFTMTF'].node)
+            if isinstance(c, ast.Call) and unparse(c.func) == 'FFTPSF']
+    passes = all(any(unparse(a_) == 'self.grid_size' for a_ in
+                     list(c.args) + [k.value for k in c.keywords])
+                 for c in uses) and bool(uses)
+    if ok and passes:
+        res.ok('grid_size >= 2 num_rays is enforced and handed to the PSF')
+    else:
+        res.fail(ctx.finding(
+            'MTF-NO-ALIAS', f, f.node,
+            'FFTMTF accepts num_rays <= grid_size < 2 num_rays: the negative '
+            'lobe of the pupil autocorrelation wraps around and the MTF of an '
+            'unaberrated paraboloid exceeds the analytic diffraction limit by '
+            'up to 0.38 (0.77 against 0.39 for num_rays = grid_size = 128)',
+            construct='grid smaller than twice the pupil'))
+    return res
+
+
+RULES = [mtf_no_alias, vignetted_pupil, intensity_used, c03_trace_entry, c04_marginal, no_stale, psf_norm, dft_sampling, working_fno, def_assign, shapes, geometric]
